@@ -3,7 +3,7 @@ from __future__ import print_function
 import re
 import sys
 from bisect import insort
-from ast import iter_fields, iter_child_nodes, Store, Load, NodeVisitor, parse, Tuple, List, AST
+from ast import iter_fields, iter_child_nodes, Store, Load, NodeVisitor, parse, Tuple, List, AST, stmt, comprehension
 
 try:
     from ast import Starred
@@ -382,12 +382,17 @@ class Source(object):
         # the visitors recurse a few frames per level of the tree: a long
         # chain of operators or elif branches that the parser accepts must
         # not exhaust the recursion limit of the analysis
+        # (nor must a long flat run of definitions that refer to each other,
+        # 's = s.strip()' a hundred times: following it takes a few frames
+        # per statement or comprehension clause)
         depth = 0
+        links = 0
         level = [tree]
         while level:
             depth += 1
+            links += sum(1 for n in level if isinstance(n, (stmt, comprehension)))
             level = [c for n in level for c in iter_child_nodes(n)]
-        need = min(depth * 12 + 500, 60000)
+        need = min(depth * 12 + links * 10 + 500, 60000)
         if need > sys.getrecursionlimit():
             sys.setrecursionlimit(need)
         self._fix_columns(tree)
